@@ -372,7 +372,7 @@ PROPS['C07']['level_text'] = ('(a) Per corpus program, the code EMITTED by the c
                               'facet holds (inherited facets of derived simple types included), composing through struct members, Option and Vec up to the '
                               'request envelope. The quantifier over schemas is the corpus (the hand-written corpus programs plus 3 generated ones; 45 generated in the thorough tier). '
                               '(b) ' + PROPS['C07']['level_text'])
-PROPS['C07']['level_note'] += (' Generator half of (a), unit XR (Verus/Z3, all restriction nodes): build_restrictions / get_restriction_from_attribute_or_node of structures/restrictions.rs read each of the 11 scalar facets from the attribute of that name or the value of the first child element of that name (compared up to surrounding white space); the enumeration list is built by iterator adapters outside Verus\' reach and is presented as an unconstrained value there (decided at L3). L3: contracts of the helper runtime are imported from units R and S (proved there). Stand-ins for yaserde derives. '
+PROPS['C07']['level_note'] += (' Generator half of (a), unit XR (Verus/Z3, all restriction nodes): build_restrictions / get_restriction_from_attribute_or_node of structures/restrictions.rs read each of the 11 scalar facets from the attribute of that name or the value of the first child element of that name (compared up to surrounding white space), and SimpleProps::try_from_node (simple.rs) gives a simple type the facets of ITS first restriction child and its own name; the enumeration list is built by iterator adapters outside Verus\' reach and is presented as an unconstrained value there (decided at L3). L3: contracts of the helper runtime are imported from units R and S (proved there). Stand-ins for yaserde derives. '
                                'Known finding: own facets of a simple type derived from a named simple type are not enforced.')
 
 def x_witness(pid, fails, repo):
